@@ -12,6 +12,7 @@ own ASN.1 module with the same type names; the containers put data BEHIND the ev
 
 usage: tools/gen_rchains.py <first-chain-number> <count> <python-seed> [versions] [tagchoice]
   tagchoice: CHOICE chains whose alternatives carry explicit, scrambled tags, plus the role InSet
+  nest: SEQUENCE/SET chains with the additional roles InExt, PairExt, ManyExt, AltExt, Pair
 """
 import os, random, sys
 sys.path.insert(0, os.path.dirname(os.path.abspath(__file__)))
@@ -20,8 +21,18 @@ from gen_zoo import G
 ZOO = os.path.join(os.path.dirname(os.path.dirname(os.path.abspath(__file__))), "sim", "zoo")
 
 
-def containers(chain, ver, flags, inset=False):
+def containers(chain, ver, flags, inset=False, nest=False):
     extra = ""
+    if nest:
+        # the evolving type INSIDE an open type (an extension addition of an outer SEQUENCE, a known extension
+        # alternative of a CHOICE) and FOLLOWED by further content there, as list element inside an addition, and
+        # twice side by side: unknown additions of the inner value must be skipped exactly, the enclosing
+        # open type's end is not a substitute
+        extra += f"  InExt ::= SEQUENCE {{ a BOOLEAN, ..., p SEQUENCE {{ inner Msg, tail INTEGER (0..255) }} OPTIONAL, q INTEGER (0..65535) OPTIONAL }}   -- @chain={chain}.InExt:{ver}{flags}\n"
+        extra += f"  PairExt ::= SEQUENCE {{ a BOOLEAN, ..., two SEQUENCE {{ x Msg, y Msg, z INTEGER (0..255) }} OPTIONAL }}   -- @chain={chain}.PairExt:{ver}{flags}\n"
+        extra += f"  ManyExt ::= SEQUENCE {{ a BOOLEAN, ..., l SEQUENCE (SIZE(0..3)) OF Msg OPTIONAL, q BOOLEAN OPTIONAL }}   -- @chain={chain}.ManyExt:{ver}{flags}\n"
+        extra += f"  AltExt ::= CHOICE {{ n BOOLEAN, ..., c SEQUENCE {{ inner Msg, tail INTEGER (0..255) }} }}   -- @chain={chain}.AltExt:{ver}{flags}\n"
+        extra += f"  Pair ::= SEQUENCE {{ x Msg, y Msg, tail INTEGER (0..255) }}   -- @chain={chain}.Pair:{ver}{flags}\n"
     if inset:
         # the evolving type as an UNTAGGED component of a SET with explicit tags: its position in the SET's
         # canonical order comes from the tag the compiler resolves for it, which must not change when a
@@ -37,10 +48,11 @@ def main():
     first, count, seed = int(sys.argv[1]), int(sys.argv[2]), int(sys.argv[3])
     versions = int(sys.argv[4]) if len(sys.argv) > 4 and sys.argv[4].isdigit() else 5
     tagged_choice = "tagchoice" in sys.argv[4:]
+    nest = "nest" in sys.argv[4:]
     for k in range(first, first + count):
         g = G(seed * 1000 + k, "X")
         r = g.r
-        kind = "CHOICE" if tagged_choice else r.choice(["SEQUENCE", "SEQUENCE", "SET", "CHOICE"])
+        kind = "CHOICE" if tagged_choice else r.choice(["SEQUENCE", "SEQUENCE", "SET"] if nest else ["SEQUENCE", "SEQUENCE", "SET", "CHOICE"])
         amp = False
         if kind == "CHOICE" and tagged_choice:
             # alternatives with explicit context tags in scrambled order; later alternatives often get SMALLER
@@ -89,7 +101,7 @@ def main():
                 adds.append(f"x{i} {tag(nroot + i)}{t}{suffix}")
         flags = " @zeroamp" if amp else ""
         for v in range(versions):
-            body = f"  Msg ::= {kind} {{ " + ", ".join(root + ["..."] + adds[:v]) + f" }}     -- @chain=r{k}.Msg:{v}{flags}\n" + containers(f"r{k}", v, flags, inset=tagged_choice)
+            body = f"  Msg ::= {kind} {{ " + ", ".join(root + ["..."] + adds[:v]) + f" }}     -- @chain=r{k}.Msg:{v}{flags}\n" + containers(f"r{k}", v, flags, inset=tagged_choice, nest=nest)
             with open(os.path.join(ZOO, f"rchain_{k}_v{v}.asn1"), "w") as f:
                 f.write(f"-- generated by tools/gen_rchains.py (chain {k}, seed {seed}); do not edit\nRchain{k}V{v} DEFINITIONS AUTOMATIC TAGS ::= BEGIN\n{body}END\n")
         print(f"rchain_{k}: {kind}, {nroot} root, {versions} versions{flags}")
